@@ -719,6 +719,10 @@ def schema_cases(run, names, rng, tier):
                 fresh = True
                 for v in IC.VERSIONS:
                     xv = copy.deepcopy(o)
+                    try:
+                        xv.tag = cls().tag      # e.g. a Name held as an attribute value carries that tag
+                    except Exception:
+                        pass
                     set_header_version(xv, v)
                     try:
                         b = IC.enc(xv, v)
@@ -746,11 +750,14 @@ def schema_cases(run, names, rng, tier):
                         try:
                             y, left = IC.dec(cls, vb, v)
                             acc = (left == 0)
-                            if acc:
-                                IC.repair_text_padding(y)
-                                stable = (IC.enc(y, v) == vb)
                         except Exception:
                             acc = False
+                        if acc:
+                            try:
+                                IC.repair_text_padding(y)
+                                stable = (IC.enc(y, v) == vb)
+                            except Exception as e:
+                                stable = "raises " + type(e).__name__
                         cases.append((name, vn, d, vb, acc, stable))
                     fresh = False
                 if not fresh:
